@@ -651,6 +651,9 @@ def default_accessors(ctx):
             ok = is_name(s.value, fu.params[0]) and isinstance(idx, ast.Call) and is_name(idx.func, 'int') \
                 and len(idx.args) == 1 and is_name(idx.args[0], fu.params[1])
         ctx.ob(ok, fu, 'sequence accessor returns target[int(index)] itself: %s' % [norm(r) for r in rets])
+        extra = [n for n in fu.own_nodes() if isinstance(n, (ast.Raise, ast.If, ast.Try, ast.For, ast.While))]
+        ctx.ob(not extra, fu, 'the sequence accessor does nothing but that lookup (every index Python accepts is accepted)',
+               'additional control flow: %s' % [src(x, 60) for x in extra][:3])
     # fallback: attribute access
     bu = ctx.unit('core.TargetRegistry._register_builtin_ops')
     ok = False
@@ -677,3 +680,32 @@ def default_accessors(ctx):
              and p.global_qualname(u, c.args[0]) == 'builtins.object' for c in calls_in(u))
     ctx.ob(ok, u, 'object is registered (the attribute fallback covers every type)')
     ctx.floor(7)
+
+
+@rule('C01.9')
+def path_keeps_every_part(ctx):
+    """Path(*parts): every part contributes a step (or is refused with an error); none is skipped"""
+    p = ctx.program
+    u = ctx.unit('core.Path.__init__')
+    cfg = ctx.cfg(u)
+    loops = [n for n in u.own_nodes() if isinstance(n, ast.For)]
+    ctx.require(len(loops) == 1, 'Path.__init__: part loop not found')
+    lp = loops[0]
+    ln = cfg.node_of(lp)
+    body = [n for n in cfg.nodes if ln in n.loop_stack]
+    adders = {n for n in body if n.ast is not None and any(
+        isinstance(c, ast.Call) and callee_qual(p, u, c) == 'core._t_child' for c in ast.walk(n.ast) if n.kind == 'stmt')}
+    ctx.require(adders, 'Path.__init__: no step is added in the loop')
+    skips = [n for n in body if n.kind == 'stmt' and isinstance(n.ast, (ast.Continue, ast.Break))]
+    ctx.ob(not skips, u, 'the part loop has no continue / break', '%s' % [norm(n.ast) for n in skips])
+    # a part that is a T expression with zero steps adds nothing by construction (inner while over its steps);
+    # every other path from the loop head back to it passes a step-adding call
+    inner = [n for n in body if n.kind == 'test' and isinstance(n.stmt, ast.While)]
+    pth = cfg.find_path(ln, {ln}, avoid=adders | set(inner), start_labels=lambda l: l == 'true', labels=lambda l: l != 'exc')
+    ctx.ob(pth is None, u, 'every part adds a step on every path through the loop body',
+           '' if pth is None else 'a path returns to the loop head without adding a step: that part is silently dropped',
+           witness=fmt_witness(cfg, pth))
+    ctx.ob(isinstance(lp.iter, ast.Subscript) and isinstance(lp.iter.slice, ast.Slice) and lp.iter.slice.upper is None
+           and lp.iter.slice.step is None and is_name(lp.iter.value, u.vararg), u,
+           'the loop visits every part after the optional leading T: %s' % norm(lp.iter))
+    ctx.floor(3)
